@@ -273,7 +273,7 @@ def pcfw(ctx, a, z, **kwargs):
     v = ctx.sum_accurately(terms)
     if ctx._is_real_type(n) and ctx._is_real_type(z):
         v = ctx._re(v)
-    return v
+    return +v
 
 """
 Even/odd PCFs. Useful?
